@@ -311,7 +311,13 @@ Definition scope_cands (p : proj) (i : nat) (name : str) (kind : option str) : l
     | None => matching p name (contents e)
     | Some k => match comp_kind k with
                 | Some c => matching p name (contents_of e (scope_attrs (lower k) c))
-                | None => []
+                | None =>
+                  (* a word that is only an item kind ("bound", "variable", "final", ...): among
+                     the contents of an entity it designates the items of that kind *)
+                  match assoc_get (lower k) doc_item_kinds with
+                  | Some a => matching p name (contents_of e [a])
+                  | None => []
+                  end
                 end
     end
   end.
@@ -376,7 +382,17 @@ Definition ckind_documented (k : option str) : bool :=
 
 (* is [res] an acceptable rendering of the reference r in the documentation of ctx? *)
 Definition spec_accepts (p : proj) (ctx : option nat) (r : ref) (res : result) : bool :=
-  if negb (kind_documented (r_kind r) && ckind_documented (r_ckind r))
+  if negb (kind_documented (r_kind r))
+  then (* the word is no component kind.  If it is an item kind and the context or its parent
+          contains such an item of that name, the three-level lookup selects it; otherwise
+          nothing is specified (but no abort) *)
+    match r_child r, comp_cands p ctx r, res with
+    | None, _ :: _, RLink i => nat_in i (comp_cands p ctx r)
+    | None, _ :: _, _ => false
+    | _, _, RLink _ | _, _, RPlain => true
+    | _, _, _ => false
+    end
+  else if negb (ckind_documented (r_ckind r))
   then match res with RLink _ | RPlain => true | _ => false end   (* not specified, but no abort *)
   else
     let cs := comp_cands p ctx r in
